@@ -1,0 +1,67 @@
+// Copyright 2026 The panicparse verification authors. All rights reserved.
+// Use of this source code is governed under the Apache License, Version 2.0
+// that can be found in the LICENSE file.
+
+//go:build verif
+
+// Package verifhooks makes the hooks of package internal reachable from the
+// verification harness, which lives in another module and therefore cannot
+// import an internal package. It is excluded from normal builds.
+package verifhooks
+
+import (
+	"io"
+	"regexp"
+
+	"github.com/maruel/panicparse/v2/internal"
+	"github.com/maruel/panicparse/v2/stack"
+)
+
+// Palette is internal.Palette.
+type Palette = internal.Palette
+
+// NewPalette is internal.VerifPalette.
+func NewPalette(colour bool) *Palette { return internal.VerifPalette(colour) }
+
+// PathFormats is internal.VerifPathFormats.
+func PathFormats() (int, int, int) { return internal.VerifPathFormats() }
+
+// Process is internal.VerifProcess.
+func Process(in io.Reader, out io.Writer, p *Palette, s stack.Similarity, pf int, filter, match *regexp.Regexp) error {
+	return internal.VerifProcess(in, out, p, s, pf, filter, match)
+}
+
+// WriteBuckets is internal.VerifWriteBuckets.
+func WriteBuckets(out io.Writer, p *Palette, a *stack.Aggregated, pf int, needsEnv bool, filter, match *regexp.Regexp) error {
+	return internal.VerifWriteBuckets(out, p, a, pf, needsEnv, filter, match)
+}
+
+// WriteGoroutines is internal.VerifWriteGoroutines.
+func WriteGoroutines(out io.Writer, p *Palette, s *stack.Snapshot, pf int, needsEnv bool, filter, match *regexp.Regexp) error {
+	return internal.VerifWriteGoroutines(out, p, s, pf, needsEnv, filter, match)
+}
+
+// BucketHeader is internal.VerifBucketHeader.
+func BucketHeader(p *Palette, b *stack.Bucket, pf int, multi bool) string {
+	return internal.VerifBucketHeader(p, b, pf, multi)
+}
+
+// GoroutineHeader is internal.VerifGoroutineHeader.
+func GoroutineHeader(p *Palette, g *stack.Goroutine, pf int, multi bool) string {
+	return internal.VerifGoroutineHeader(p, g, pf, multi)
+}
+
+// StackLines is internal.VerifStackLines.
+func StackLines(p *Palette, s *stack.Signature, srcLen, pkgLen, pf int) string {
+	return internal.VerifStackLines(p, s, srcLen, pkgLen, pf)
+}
+
+// CalcBucketsLengths is internal.VerifCalcBucketsLengths.
+func CalcBucketsLengths(a *stack.Aggregated, pf int) (int, int) {
+	return internal.VerifCalcBucketsLengths(a, pf)
+}
+
+// CalcGoroutinesLengths is internal.VerifCalcGoroutinesLengths.
+func CalcGoroutinesLengths(s *stack.Snapshot, pf int) (int, int) {
+	return internal.VerifCalcGoroutinesLengths(s, pf)
+}
